@@ -13,11 +13,16 @@ def _jobs(tier):
         # the depth-first FFT / block-scheduled NTT paths only exist for N >= 8192 / n >= 2048: a few programs there too
         jobs.append(dict(sub="threads", count=14, fix=dict(k=(11, 12), T=(2, 8))))
         jobs.append(dict(sub="threads", count=10, fix=dict(k=(13, 14), T=(2, 6))))
+        # warmed-up processes at N=8192: the *_simple front ends with two large dimensions (m = 4096 and 8192) in flight
+        for i in range(4):
+            jobs.append(dict(sub="threads", count=16, fix=dict(k=13, T=(3, 6), mode=1, calls=(4, 6))))
     else:
         for i in range(16):
             jobs.append(dict(sub="threads", count=2000, fix=dict(k=(1, 10))))
         for k in range(11, 17):
             jobs.append(dict(sub="threads", count=40, fix=dict(k=k)))
+        for i in range(8):
+            jobs.append(dict(sub="threads", count=100, fix=dict(k=(13, 14), T=(3, 8), mode=1, calls=(4, 6))))
     return jobs
 
 
